@@ -278,18 +278,20 @@ PROPS["C18"] = {
     "lean_modules": ["BurrowVerif.Props.C18"],
     "props_files": ["BurrowVerif/Props/C18.lean"],
     "anchors": ["core/internal/httpserver/config.go", "core/internal/httpserver/kafka.go", "core/internal/httpserver/structs.go"],
-    "streams": [{"name": "confhttp", "keys": None, "spec_tags": [], "trivial": r"^(ok|code=404.*)$", "hist_keys": ["code", "kind"],
+    "streams": [{"name": "confhttp", "keys": None, "spec_tags": ["D20"], "trivial": r"^(ok|code=404.*)$", "hist_keys": ["code", "kind"],
                  "scale": {"quick": 2, "thorough": 20}, "seeds": {"quick": 1, "thorough": 3}},
                 dict(_HTTP_STREAM, keys={"code", "ct", "err", "hdr", "kind", "key", "mod", "list", "coord", "leak"}, spec_tags=[])],
     "rule": ("stream confhttp: generated configurations (0-2 SASL profiles with passwords, 0-1 TLS profiles, 1-3 client profiles referring to them, 1-2 clusters, 0-2 consumers of both "
              "classes, storage, evaluator, 0-3 notifiers of every class — http with basic-auth password, email with SMTP password, slack, null — with and without extras; module names incl. "
-             "spaces, unicode, upper case and the words 'password' and 'extras') rendered to TOML TWICE with two different random 23-character passwords and loaded into viper; every config and "
+             "spaces, unicode, upper case, the words 'password' and 'extras', and names that themselves contain dots — 'prof0.x', 'x.y.z', '.lead', 'dot.', and a module named like another "
+             "module's extras table (the D20 pair) —) rendered to TOML TWICE with two different random 23-character passwords and loaded into viper; every config and "
              "cluster route is requested with every configured name, 'nope', and dotted names reaching towards .password/.username/.extras/.class-name/.servers and across sections. Each "
              "response is compared field by field with the model's (which is given the flattened configuration), so the two rounds are compared through the model; additionally (a TEST, "
              "labelled as such) no response body or header may contain any of the configured password values (leak=1 otherwise). Non-trivial = a 200 answer. | " + _HTTP_RULE),
     "trusted": [
-        "viper is modelled as a flattened map from lower-cased key paths to values with prefix-based IsSet (Model/Http.lean Cfg); validated differentially incl. dotted names; module names that "
-        "themselves contain dots are outside the generator (viper itself treats them inconsistently)",
+        "viper is modelled as a flattened map from raw (lower-cased) key paths to values, with viper's longest-prefix-first, backtracking resolution of dotted keys (Model/Http.lean Cfg.search/norm) "
+        "and GetStringMapString showing nested tables as \"\"; validated differentially incl. dotted request names AND dotted configured names; the override layer (viper.Set of the default "
+        "listener) is read per top-level key and assumed not to overlap the file's keys",
         "log output and the process environment are not modelled (AutomaticEnv is only set up in main.go)",
         "the list of viper key literals of package httpserver is regenerated from the source (go/ast) on every run",
     ],
